@@ -9,6 +9,7 @@
 #undef protected
 #include "Estimation/CalcKriging.hpp"
 #include "Db/Db.hpp"
+#include "Db/DbGrid.hpp"
 #include "Model/Model.hpp"
 #include "Neigh/NeighUnique.hpp"
 #include "Neigh/NeighMoving.hpp"
@@ -71,7 +72,12 @@ static std::string run(const Sx& c) {
   defineDefaultSpace(ESpaceType::RN, ndim);
   int nfex = (int) c[4][2].i();
   Db* dbin = makeDb(c[2], ndim, nvar, nfex, true);
-  Db* dbout = makeDb(c[3], ndim, nvar, nfex, false);
+  Db* dbout;
+  if (c[3].size() > 5 && c[3][5].size() > 0) {
+    // block kriging needs a grid: (nx dx x0)
+    VectorInt nx = c[3][5][0].vi(); VectorDouble dx = c[3][5][1].vd(), x0 = c[3][5][2].vd();
+    dbout = DbGrid::create(nx, dx, x0);
+  } else dbout = makeDb(c[3], ndim, nvar, nfex, false);
   Model* model = makeModel(c[4], ndim, nvar);
   ANeigh* neigh;
   if (c[5][0].i() == 0) neigh = NeighUnique::create();
@@ -149,6 +155,15 @@ static std::string run(const Sx& c) {
         o << ")"; } o << ")"; }
       o << ") (";
       { SpacePoint pt(x0); for (int a = 0; a < nvar; a++) { o << "("; for (int b = 0; b < nvar; b++) o << (b ? " " : "") << sx_d(model->eval(pt, pt, a, b, &mVAR)); o << ")"; } }
+      o << ") (";
+      // block: the pairs of discretisation points used for the block variance (first set regular, second set randomised)
+      if (calcul == EKrigOpt::BLOCK) {
+        int nd = ksys._getNDisc();
+        for (int i = 0; i < nd; i++) for (int j = 0; j < nd; j++) {
+          SpacePoint p1(ksys._getDISC1Vec(i)), p2(ksys._getDISC2Vec(j));
+          o << "("; for (int a = 0; a < nvar; a++) { o << "("; for (int b = 0; b < nvar; b++) o << (b ? " " : "") << sx_d(model->eval(p1, p2, a, b, &mVAR)); o << ")"; } o << ")";
+        }
+      }
       o << "))";
     }
     ksys.conclusion();
